@@ -26,7 +26,7 @@ theorem union_inv {as v} (h : Conforms env (.union as) v) : ∃ a ∈ as, Confor
   cases h; exact ⟨_, by assumption, by assumption⟩
 end Conforms
 
-theorem map_ok {α β} {x : Except Err α} {f : α → β} {w : β} (h : x.map f = .ok w) : ∃ y, x = .ok y ∧ f y = w := by
+theorem map_ok {ε α β} {x : Except ε α} {f : α → β} {w : β} (h : x.map f = .ok w) : ∃ y, x = .ok y ∧ f y = w := by
   cases x with
   | error e => simp [Except.map] at h
   | ok y => exact ⟨y, rfl, by simpa [Except.map] using h⟩
